@@ -113,6 +113,26 @@ fn c10_faithful(cx: &mut Ctx, sys: &Sys, mk: &dyn Fn() -> Case) {
                     break;
                 }
             }
+            // a second display() right away must give the same rows (the first one materialised
+            // every cell: representation must not matter)
+            let again = catch(|| memterm::parser_listener::ParserListener::display(&mut fork));
+            cx.stats.clause("display-twice");
+            match again {
+                Ok(r2) if r2 == rows => {}
+                Ok(r2) => {
+                    cx.violation(Viol {
+                        prop: "C10".into(),
+                        clause: "impure".into(),
+                        op: "display".into(),
+                        bucket: "display-twice".into(),
+                        detail: format!("two consecutive display() calls differ: {:?} then {:?}", rows, r2),
+                        case: mk(),
+                    });
+                }
+                Err(p) => {
+                    cx.violation(Viol { prop: "C10".into(), clause: "render-panic".into(), op: "display".into(), bucket: panic_sig(&p), detail: format!("second display() panicked: {} at {}", p.msg, p.loc), case: mk() });
+                }
+            }
             // display() must not have changed the state of the fork either
             let after = snapshot(&fork);
             if after != snap {
@@ -223,7 +243,14 @@ fn c10_history(rng: &mut Rng, c: u32, l: u32, n: usize) -> Vec<Op> {
                 Op::Feed(gen::session(rng, c, l, k))
             }
             25..=34 => Op::Api(Draw(gen::text_run(rng, 6))),
-            35..=39 => Op::Api(Draw(rng.pick(&gen::COMBINING).to_string())),
+            35..=37 => Op::Api(Draw(rng.pick(&gen::COMBINING).to_string())),
+            38 => Op::Api(Draw(format!("{}{}", rng.pick(&gen::WIDE), rng.pick(&gen::COMBINING)))),
+            39 => {
+                // overwrite the right half of a double-width character
+                ops.push(Op::Api(Draw(rng.pick(&gen::WIDE).to_string())));
+                ops.push(Op::Api(CursorBack(Some(1))));
+                Op::Api(Draw("b".into()))
+            }
             40..=44 => Op::Api(InsertLines(gen::param(rng, l))),
             45..=49 => Op::Api(DeleteLines(gen::param(rng, l))),
             50..=54 => Op::Api(InsertCharacters(gen::param(rng, c))),
